@@ -616,6 +616,108 @@ def history_stream(ctx):
                     ctx.fail("genuine-rejected:%s" % kind, {"stream": "history", "key": label, "history": history}, repr(res))
 
 
+def interleaved_sign(key, data, alg, other_alg, files):
+    """key.sign_ssh_data(data, alg) while, at every source line executed inside the key modules, ANOTHER complete
+    sign + verify with ``other_alg`` runs on the SAME key object - what a second thread sharing the key (a server's
+    host key) does while the first is inside the RSA operation.  Returns the blob of the outer call."""
+    import sys
+
+    busy = [False]
+    other_data = b"interleaved-" + data
+
+    def local(frame, event, arg):
+        if event == "line" and not busy[0]:
+            busy[0] = True
+            try:
+                m = key.sign_ssh_data(other_data, other_alg) if other_alg else key.sign_ssh_data(other_data)
+                lk.call_verify(key, other_data, m.asbytes())
+            finally:
+                busy[0] = False
+        return local
+
+    def tracer(frame, event, arg):
+        if frame.f_code.co_filename.endswith(files) and not busy[0]:
+            return local
+        return None
+
+    sys.settrace(tracer)
+    try:
+        m = key.sign_ssh_data(data, alg) if alg else key.sign_ssh_data(data)
+    finally:
+        sys.settrace(None)
+    return m.asbytes()
+
+
+def reentrancy_stream(ctx):
+    """signing is a function of (key, data, algorithm) only: a concurrent sign/verify with another algorithm on the
+    same key object must not change the label or the validity of a signature"""
+    import paramiko
+
+    rng = ctx.rng
+    files = ("paramiko/rsakey.py", "paramiko/ecdsakey.py", "paramiko/ed25519key.py", "paramiko/pkey.py")
+    n = rng.randrange(1, 1 << 40)
+    keys = [("rsa", "toy-rsa", lk.toy_rsa_key("p", n, 1024)),
+            ("rsa", "rsa-1024", paramiko.RSAKey(key=lk.gen_crypto_key("rsa", 1024))),
+            ("ec", "ec-256", paramiko.ECDSAKey.generate(bits=256)),
+            ("ed", "ed25519.key", paramiko.Ed25519Key.from_private_key_file(lk.support("ed25519.key")))]
+    for kind, label, key in keys:
+        algs = [None] + RSA_ALL if kind == "rsa" else [None]
+        for alg in algs:
+            for other in (algs if kind == "rsa" else [None]):
+                if kind == "rsa" and other == alg:
+                    continue
+                data = rng.randbytes(16)
+                case = {"stream": "reentrancy", "key": label, "algorithm": alg, "interleaved_algorithm": other, "data": data.hex()}
+                try:
+                    blob = interleaved_sign(key, data, alg, other, files)
+                except Exception as e:  # noqa: BLE001
+                    ctx.fail("sign-raises:%s:%s" % (kind, exc_site(e)), case, repr(e))
+                    continue
+                ctx.case(("reentrancy", label, alg, other), True)
+                ctx.dist("reentrancy:" + kind)
+                a, _sig = split_blob(blob)
+                want = (alg or key.get_name()).replace(lk.CERT, "") if kind == "rsa" else key.get_name()
+                res = lk.call_verify(key, data, blob)
+                if a.decode("latin-1") != want or res != ("ok", True):
+                    ctx.fail("sign-not-reentrant:" + kind, dict(case, blob=blob.hex()),
+                             "signed with %r while a sign+verify with %r ran on the same key object: blob declares %r, "
+                             "verifies: %r" % (alg, other, a.decode("latin-1"), res[1] if res[0] == "ok" else res[1]))
+
+
+ALLOWED_SELF_ASSIGN = {  # methods of the key classes that may assign attributes of self (construction phase only)
+    ("rsakey.py", "RSAKey"): {"__init__", "_decode_key"},
+    ("ecdsakey.py", "ECDSAKey"): {"__init__", "_decode_key"},
+    ("ed25519key.py", "Ed25519Key"): {"__init__"},
+    ("pkey.py", "PKey"): {"load_certificate"},
+}
+
+
+def source_facts(ctx):
+    """generated fact (AST of the bound repo): key objects are immutable once built - in the key classes only the
+    construction-phase methods assign attributes of self (so sign/verify and everything they call keep no state)"""
+    import ast
+    import os
+    from pv.core import REPO
+
+    for (fname, cname), allowed in ALLOWED_SELF_ASSIGN.items():
+        tree = ast.parse(open(os.path.join(REPO, "paramiko", fname)).read())
+        found = {}
+        for cls in [x for x in tree.body if isinstance(x, ast.ClassDef) and x.name == cname]:
+            for fn in [x for x in cls.body if isinstance(x, ast.FunctionDef)]:
+                for node in ast.walk(fn):
+                    targets = node.targets if isinstance(node, ast.Assign) else \
+                        [node.target] if isinstance(node, (ast.AugAssign, ast.AnnAssign)) else []
+                    for t in targets:
+                        for x in ast.walk(t):
+                            if isinstance(x, ast.Attribute) and isinstance(x.value, ast.Name) and x.value.id == "self":
+                                found.setdefault(fn.name, set()).add(x.attr)
+        ctx.case(("source-fact", fname, cname), True)
+        extra = {k: sorted(v) for k, v in found.items() if k not in allowed}
+        if extra:
+            ctx.disagree("source fact: %s.%s assigns self attributes outside construction" % (fname, cname),
+                         {"class": cname}, "only in " + ", ".join(sorted(allowed)), repr(extra))
+
+
 def run(ctx):
     ctx.rule = ("per key (toy: random keys of all three types and both object shapes; real: generated RSA 1024/2048 "
                 "[thorough: 3072/4096], ECDSA P-256/384/521, bundled and fresh Ed25519, each through every route): "
@@ -636,7 +738,7 @@ def run(ctx):
                "fields >= 2^20 on a short body, RSA leading zeros, non-minimal mpints) are not 'altered signatures'")
     ctx.build()
     table_check(ctx, "before")
-    for stream in (text_stream, toy_stream, witness_replay, real_stream, history_stream):
+    for stream in (source_facts, text_stream, toy_stream, witness_replay, real_stream, history_stream, reentrancy_stream):
         lk.guarded(ctx, stream)
     table_check(ctx, "after")
 
